@@ -1,7 +1,7 @@
 (* C08 -- Parse trees are positionally faithful and lossless.  Statements only. *)
 From Coq Require Import NArith List Bool.
 From PV Require Import Spec.Cfg Model.Forest Model.Table Model.LRDriver Validators.ForestSound
-  Proofs.ForestProofs Proofs.ForestSoundProofs Proofs.LRSpanProofs.
+  Proofs.ForestProofs Proofs.ForestSoundProofs Proofs.LRSpanProofs Proofs.LRTraceProofs.
 Import ListNotations.
 Local Open Scope N_scope.
 
@@ -18,6 +18,19 @@ Theorem C08_lr_spans :
       spans_ok t.
 Proof. exact lr_spans. Qed.
 Print Assumptions C08_lr_spans.
+
+(* LR, losslessness at the level of positions (consume_input on): the shifted tokens with the
+   layout span recorded for each tile the input from the start position to the end of the last
+   token -- each token's layout_content is exactly the gap after the previous token (or the
+   start), each token starts where layout skipping from there stops, start <= end: nothing is
+   lost, duplicated or invented.  (The leaves of the returned tree are these tokens:
+   C04_lr_sound.) *)
+Theorem C08_lr_lossless :
+  forall g tb skipws next_token stop_id pos0 fuel t rp lay tr,
+    lr_parse g tb skipws next_token stop_id true false fuel pos0 = LROk t rp lay tr ->
+    tiles skipws pos0 tr.
+Proof. exact lr_trace_tiles. Qed.
+Print Assumptions C08_lr_lossless.
 
 (* well-formed spans give the statement of the property: every node of the tree has
    start <= end and lies inside the root's span (applied to a subtree: inside its parent) *)
@@ -47,9 +60,10 @@ Proof.
 Qed.
 Print Assumptions C08_forest_spans.
 
-(* NOT PROVED (checked on every generated case instead): layout_content of each LR/GLR leaf
-   equals input[previous end : start] and value equals input[start:end] as STRINGS (the model
-   carries positions only), and the positions passed to actions / obj equal the node's. *)
+(* NOT PROVED (checked on every generated case instead): that the STRINGS layout_content and
+   value are input[layout span] and input[start:end] (the model carries positions only), the
+   GLR counterpart of C08_lr_lossless, and that the positions passed to actions / obj equal
+   the node's. *)
 
 Definition t_ex : tree := TNode 1 0 3 [TNode 2 0 0 []; TLeaf 0 2 3].
 Example C08_nonvacuous : spans_ok t_ex /\ In (TNode 2 0 0 []) (subtrees t_ex).
